@@ -142,7 +142,8 @@ def run(ctx):
     # one valid frame (3 blocks, content checksum, declared size) as the source
     fw = {"id": 1, "input": {"family": "text", "len": 150000, "seed": 9}, "save": os.path.join(d, "frame.lz4"),
           "opts": {"code": 4, "bcs": True, "ccs": True, "level": 0, "conc": 1, "legacy": False, "handler": False, "size": 150000},
-          "calls": [{"op": "write", "n": 150000}, {"op": "close"}]}
+          # blocks of irregular sizes (1000, 65536, 4464, 65536, 13464): a short block before a longer one, as Flush makes them
+          "calls": [{"op": "write", "n": 1000}, {"op": "flush"}, {"op": "write", "n": 70000}, {"op": "flush"}, {"op": "write", "n": 79000}, {"op": "close"}]}
     fr, _ = fl.shard_run(b, "frame-write", [fw], d, "fw", nshards=1)
     total = 150000
     szmap = {0: 0, 1: 1, 3: total * 3 // 5, 7: total + 10}
